@@ -23,6 +23,7 @@ import (
 	"sort"
 	"strconv"
 	"strings"
+	"sync"
 	"testing"
 	"time"
 
@@ -434,6 +435,7 @@ func (h *vHist) run(inc vInc) (hung bool) {
 	var outs []vHandle
 	recovered := false
 	truncated := false
+	implPanic := ""
 	var parked chan bool // a reader parked on the empty queue (released after the observations are taken)
 	func() {
 		defer func() {
@@ -442,7 +444,8 @@ func (h *vHist) run(inc vInc) (hung bool) {
 					ob.died = true
 					return
 				}
-				panic(p)
+				// the implementation itself panicked: report it with the history instead of losing the run
+				implPanic = fmt.Sprint(p)
 			}
 		}()
 		pq = vNewPQ(h.cfg)
@@ -569,6 +572,15 @@ func (h *vHist) run(inc vInc) (hung bool) {
 		if cl.calls != calls {
 			h.fails = append(h.fails, vFail{"parked-reader-touched-storage", fmt.Sprintf("%d calls", cl.calls-calls)})
 		}
+	}
+	if implPanic != "" {
+		ops := make([]string, len(inc.script))
+		for j, o := range inc.script {
+			ops[j] = vOpTerm(o)
+		}
+		h.fails = append(h.fails, vFail{"implementation-panics",
+			fmt.Sprintf("incarnation %d (script %s, budget %d) after %d storage calls: %s", len(h.incs), vList(ops), inc.budget, cl.calls, implPanic)})
+		return true
 	}
 	if hung {
 		h.fails = append(h.fails, vFail{"read-hangs", "Read blocked although readIndex != writeIndex"})
@@ -743,7 +755,17 @@ func (g *vGen) script(c vCfg, prefix []vInc, n int, out *vOut) []vOp {
 		for _, inc := range prefix {
 			h2.run(inc)
 		}
-		h2.run(vInc{append(append([]vOp{}, sc...), o), -1})
+		aborted := false
+		for _, inc := range prefix {
+			_ = inc
+		}
+		if h2.run(vInc{append(append([]vOp{}, sc...), o), -1}) || len(h2.obs) == 0 {
+			aborted = true
+		}
+		if aborted {
+			vEmit(out, h2) // the implementation panicked or hung on this script: report it and stop extending
+			break
+		}
 		last := h2.obs[len(h2.obs)-1]
 		outs = 0
 		stopped = false
@@ -973,6 +995,10 @@ func TestVerifC01(t *testing.T) {
 		vEnumerate(t, out, c, nil, [][]vOp{sc0, sc1}, 0, rng)
 	}
 
+	// (1c) the Done of a request exported in several pieces (refCountDone), also when a flush carries pieces of
+	// two requests (multiDone): piece outcomes in a random completion order, half of the time from concurrent goroutines
+	vRunDoneCases(out, rng)
+
 	// (2) codecs
 	for i := 0; i < vBudget(80, 10); i++ {
 		var buf []byte
@@ -1024,6 +1050,130 @@ func TestVerifC01(t *testing.T) {
 		}
 		if x, err := bytesToItemIndexArray(itemIndexArrayToBytes(l)); err != nil || fmt.Sprint(x) != fmt.Sprint(l) && len(l) > 0 {
 			out.Oracle("codec-roundtrip", vList(ls), "bytesToItemIndexArray(itemIndexArrayToBytes(l)) != l")
+		}
+	}
+}
+
+// ---- refCountDone / multiDone ---------------------------------------------------------------------------
+type vRecDone struct {
+	mu    sync.Mutex
+	calls int
+	err   error
+}
+
+func (d *vRecDone) OnDone(err error) {
+	d.mu.Lock()
+	d.calls++
+	d.err = err
+	d.mu.Unlock()
+}
+
+func vErrOfClass(c int, rng *vRand) error {
+	var err error
+	switch c {
+	case 0:
+		return nil
+	case 1:
+		err = vErrFailed
+	default:
+		err = experr.NewShutdownErr(errors.New("interrupted"))
+	}
+	for w := rng.Intn(3); w > 0; w-- {
+		err = fmt.Errorf("layer: %w", err)
+	}
+	return err
+}
+
+func vClassOf(err error) int {
+	switch {
+	case err == nil:
+		return 0
+	case experr.IsShutdownErr(err):
+		return 2
+	default:
+		return 1
+	}
+}
+
+func vRunDoneCases(out *vOut, rng *vRand) {
+	n := vBudget(60, 8)
+	for i := 0; i < n; i++ {
+		// two stored requests A and B, split into na and nb pieces; optionally the last piece of A and the first
+		// piece of B travel in ONE flush (multiDone{A, B}), as when the batcher merges a remainder with the next request
+		na, nb := 2+rng.Intn(4), 2+rng.Intn(3)
+		ra, rb := &vRecDone{}, &vRecDone{}
+		da, db := newRefCountDone(ra, int64(na)), newRefCountDone(rb, int64(nb))
+		merged := rng.Intn(2) == 0
+		type ev struct {
+			d   Done
+			cls int
+			a   bool
+			b   bool
+		}
+		var evs []ev
+		pick := func() int { return rng.Pick(5, 3, 3) }
+		for k := 0; k < na-1; k++ {
+			evs = append(evs, ev{da, pick(), true, false})
+		}
+		for k := 0; k < nb-1; k++ {
+			evs = append(evs, ev{db, pick(), false, true})
+		}
+		if merged {
+			evs = append(evs, ev{multiDone{da, db}, pick(), true, true})
+		} else {
+			evs = append(evs, ev{da, pick(), true, false}, ev{db, pick(), false, true})
+		}
+		for k := len(evs) - 1; k > 0; k-- {
+			j := rng.Intn(k + 1)
+			evs[k], evs[j] = evs[j], evs[k]
+		}
+		var pa, pb []string
+		seenA, seenB := map[int]bool{}, map[int]bool{}
+		errsOf := make([]error, len(evs))
+		for k, e := range evs {
+			errsOf[k] = vErrOfClass(e.cls, rng)
+			if e.a {
+				pa = append(pa, vNat(e.cls))
+				seenA[e.cls] = true
+			}
+			if e.b {
+				pb = append(pb, vNat(e.cls))
+				seenB[e.cls] = true
+			}
+		}
+		if rng.Intn(2) == 0 {
+			var wg sync.WaitGroup
+			for k, e := range evs {
+				wg.Add(1)
+				go func(d Done, err error) { defer wg.Done(); d.OnDone(err) }(e.d, errsOf[k])
+			}
+			wg.Wait()
+			out.Stat("done_concurrent", 1)
+		} else {
+			for k, e := range evs {
+				e.d.OnDone(errsOf[k])
+			}
+		}
+		for _, x := range []struct {
+			name   string
+			r      *vRecDone
+			pieces []string
+			seen   map[int]bool
+		}{{"A", ra, pa, seenA}, {"B", rb, pb, seenB}} {
+			cls := vClassOf(x.r.err)
+			term := "CDone " + vList(x.pieces) + " " + vNat(cls)
+			out.Case(true, term)
+			out.Stat(fmt.Sprintf("done_class_%d", cls), 1)
+			if x.r.calls != 1 {
+				out.Oracle("split-handoff-done-not-called-once", term, fmt.Sprintf("request %s: Done called %d times", x.name, x.r.calls))
+			}
+			// direct oracle: final only if every piece is final; success only if every piece succeeded
+			if x.seen[2] && cls != 2 {
+				out.Oracle("split-handoff-hides-shutdown-interruption", term, fmt.Sprintf("request %s pieces=%v merged_flush=%v: a piece was interrupted by shutdown but the request's Done saw class %d", x.name, x.pieces, merged, cls))
+			}
+			if !x.seen[2] && cls == 2 || (x.seen[1] || x.seen[2]) && cls == 0 {
+				out.Oracle("split-handoff-wrong-class", term, fmt.Sprintf("request %s pieces=%v class=%d", x.name, x.pieces, cls))
+			}
 		}
 	}
 }
